@@ -1252,9 +1252,26 @@ def same_outcome(ctx, case, a, b, what):
         ctx.fail(case, "%s: output line %d differs: %r vs %r" % (what, i + 1, la[i] if i < len(la) else "<end>", lb[i] if i < len(lb) else "<end>"))
 
 
+def resource_hungry(prog, recs):
+    """The metamorphic sub-checks run programs the reference interpreter does not judge; it is still used as a guard against programs
+    that legitimately need huge memory or time (a string that doubles in every iteration, 20000 steps)."""
+    try:
+        md.Interp(prog).run([MMap(r) for r in recs])
+    except md.Unmodelled as e:
+        return any(w in str(e) for w in ("longer than", "more than 2000", "step budget", "recursion too deep"))
+    except (md.Fatal, RecursionError, MemoryError):
+        return True
+    except Exception:
+        return False
+    return False
+
+
 def body_alpha(ctx, case):
     prog = normalize(case["prog"])
     recs = [[tuple(kv) for kv in r] for r in case["recs"]]
+    if resource_hungry(prog, recs):
+        ctx.excluded["program needs very large strings/collections or many steps"] += 1
+        return
     try:
         t1 = md.render_program(prog)
         t2 = md.render_program(rename_locals(prog, lambda n: n + "_r"))
@@ -1312,6 +1329,9 @@ def body_then(ctx, case):
         ctx.excluded["parts with output statements or oosvars"] += 1
         return
     b = rename_locals(b, lambda n: n + "_b")
+    if resource_hungry(a + b, recs):
+        ctx.excluded["program needs very large strings/collections or many steps"] += 1
+        return
     try:
         ta, tb = md.render_program(a), md.render_program(b)
     except md.Unmodelled:
